@@ -20,8 +20,6 @@ ACCEPTED_SENSITIVE: dict[tuple[str, str], str] = {
     ("sigma.correlations.SigmaCorrelationCondition.from_dict",
      "SigmaCorrelationConditionOperator.operators() in for op in SigmaCorrelationConditionOperator.operators()"):
         "exactly one operator key is present (guard `len(d_keys.intersection(ops)) != 1` raises above), so the loop's break hits the same element in every order",
-    ("sigma.processing.tracking.FieldMappingTracking.merge", "target_set in self.add_mapping(source, list(target_set))"):
-        "the list only feeds add_mapping, which treats its target argument as a set (set(target) / update / add)",
 }
 
 # nondeterminism sources reviewed: (function, call text prefix) -> where the value may flow
@@ -85,9 +83,72 @@ def _loop_insensitive(prog, fi: FuncInfo, loop: ast.For) -> Optional[str]:
                             return None
     # loop variable used after the loop = last element
     for v in tvars:
-        if any(isinstance(x, ast.Name) and x.id == v and isinstance(x.ctx, ast.Load) and x.lineno > loop.end_lineno for x in walk_no_nested(fi.node)):
-            return None
+        for x in walk_no_nested(fi.node):
+            if isinstance(x, ast.Name) and x.id == v and isinstance(x.ctx, ast.Load) and x.lineno > loop.end_lineno:
+                # a later loop / comprehension that binds the name again reads its own binding, not the last element of this loop
+                rebound = any(isinstance(a, (ast.For, ast.comprehension)) and a is not loop and any(isinstance(t_, ast.Name) and t_.id == v for t_ in ast.walk(a.target))
+                              for a in list(prog.ancestors(x)) + [g for c_ in prog.ancestors(x) if isinstance(c_, (ast.ListComp, ast.SetComp, ast.DictComp, ast.GeneratorExp)) for g in c_.generators])
+                if not rebound:
+                    return None
     return "body only performs commutative updates / constant early returns; no value outlives the loop"
+
+
+def _param_used_as_set(ctx, fi: FuncInfo, pname: str, depth: int = 0) -> Optional[str]:
+    """Reason why the parameter `pname` of fi (and every local derived from it by wrapping/choosing) is only consumed in
+    order-insensitive ways — set()/frozenset()/.update(), isinstance/len/truth tests, insensitive loops, handing it to
+    another method of the class that does the same — else None."""
+    prog = ctx.prog
+    if depth > 2:
+        return None
+    aliases = {pname}
+    changed = True
+    while changed:
+        changed = False
+        for st in walk_no_nested(fi.node):
+            if isinstance(st, ast.Assign) and len(st.targets) == 1 and isinstance(st.targets[0], ast.Name) and st.targets[0].id not in aliases:
+                v = st.value
+                srcs = [v.body, v.orelse] if isinstance(v, ast.IfExp) else [v]
+                ok_all = all(
+                    (isinstance(x, ast.Name) and x.id in aliases) or (isinstance(x, ast.List) and all(isinstance(e_, ast.Name) and e_.id in aliases for e_ in x.elts))
+                    or (isinstance(x, ast.Call) and call_name(x) in ("list", "set", "frozenset", "tuple") and len(x.args) == 1 and isinstance(x.args[0], ast.Name) and x.args[0].id in aliases)
+                    for x in srcs)
+                if ok_all and any(isinstance(n_, ast.Name) and n_.id in aliases for n_ in ast.walk(v)):
+                    aliases.add(st.targets[0].id)
+                    changed = True
+    for n in walk_no_nested(fi.node):
+        if not (isinstance(n, ast.Name) and n.id in aliases and isinstance(n.ctx, ast.Load)):
+            continue
+        p = prog.parent(n)
+        if isinstance(p, ast.Call) and n in p.args:
+            d = call_name(p)
+            if d in ("set", "frozenset", "isinstance", "len", "bool") or (isinstance(p.func, ast.Attribute) and p.func.attr in ("update", "issubset", "issuperset", "intersection", "union", "difference", "isdisjoint")):
+                continue
+            if d in ("list", "tuple"):
+                gp = prog.parent(p)
+                if isinstance(gp, ast.Assign):
+                    continue  # judged through the alias it creates
+                return None
+            if isinstance(p.func, ast.Attribute) and unparse(p.func.value) == "self" and fi.cls is not None:
+                callee = prog.lookup_method(fi.cls.qual, p.func.attr)
+                if callee is not None:
+                    params = [x for x in callee.params() if x != "self"]
+                    idx = p.args.index(n)
+                    if idx < len(params) and _param_used_as_set(ctx, callee, params[idx], depth + 1):
+                        continue
+            return None
+        if isinstance(p, ast.For) and p.iter is n:
+            if _loop_insensitive(prog, fi, p):
+                continue
+            return None
+        if isinstance(p, ast.comprehension) and p.iter is n:
+            gp = prog.parent(p)
+            if isinstance(gp, (ast.SetComp,)):
+                continue
+            return None
+        if isinstance(p, (ast.List, ast.IfExp, ast.Assign, ast.BoolOp, ast.UnaryOp, ast.If, ast.Compare)):
+            continue  # wrapping / choosing / testing (the wrapped value is an alias)
+        return None
+    return f"parameter {pname!r} of {fi.name}() is only put into sets, tested or walked by order-insensitive loops"
 
 
 def _key_is_injective(key: ast.AST) -> bool:
@@ -194,22 +255,29 @@ def r4_random_names_not_captured(ctx) -> None:
         r.violation("C20.R4", fa.qual, "prefix collision", probs[0] + (f" (+{len(probs) - 1} more scenario(s))" if len(probs) > 1 else ""), fa.loc)
     else:
         r.ok("C20.R4", fa.qual, "a colliding draw is repeated: the result does not depend on which prefix was drawn", fa.loc)
-    # the drawn names do start with '_'
-    import ast as _ast
-    for fn, const, node in (("sigma.filters.SigmaFilter.apply_on_rule", "_filt_", prog.cls("sigma.filters.SigmaFilter").node),
-                            ("sigma.processing.transformations.condition.AddConditionTransformation", "_cond_", prog.cls("sigma.processing.transformations.condition.AddConditionTransformation").node)):
-        ok_ = False
-        for c in (x for x in _ast.walk(node) if isinstance(x, _ast.Call) and call_name(x).startswith("random.")):
-            # the random call must be the right operand of  "<_const>" + ...
-            cur = c
-            for anc in prog.ancestors(c):
-                if isinstance(anc, _ast.BinOp) and isinstance(anc.op, _ast.Add) and isinstance(anc.left, _ast.Constant) and str(anc.left.value).startswith("_"):
-                    ok_ = anc.left.value == const
-                    break
-        if ok_:
-            r.ok("C20.R4", fn, f"random name is built as {const!r} + letters", f"{prog.modules[fn.rsplit('.', 2)[0]].relpath if fn.rsplit('.', 2)[0] in prog.modules else ''}")
-        else:
-            r.violation("C20.R4", fn, f"{const!r} + random letters", "the randomly drawn identifier no longer provably starts with '_' (selector exclusion relies on it)")
+    # the drawn names do start with '_': both interpreted (sa.tabulate, Proxy) with a stand-in random module
+    import types as _types
+    from ..tabulate import Proxy, Raised
+    AC = "sigma.processing.transformations.condition.AddConditionTransformation"
+    rnd = _types.SimpleNamespace(choices=lambda pop, k=1, **kw: ["q"] * k, choice=lambda pop: "q", randint=lambda a, b: a, random=lambda: 0.0)
+    import string as _string
+    try:
+        name = Proxy(prog, AC, {"random": rnd, "string": _string}, {}, interp_kwargs={"max_steps": 2000}).name
+    except (Raised, AttributeError) as ex:
+        raise AnalysisError(f"{AC}: default name is not evaluable ({ex})")
+    if isinstance(name, str) and name.startswith("_cond_") and name.endswith("q" * 10):
+        r.ok("C20.R4", AC, f"random name is built as '_cond_' + letters ({name!r} with the stand-in draw)", prog.cls(AC).module.relpath)
+    else:
+        r.violation("C20.R4", AC, f"'_cond_' + random letters: default name {name!r}", "the randomly drawn identifier no longer provably starts with '_' (selector exclusion relies on it)")
+    try:
+        rule4, _f4 = c02.interpret_filter_application(ctx, "flt", rule_detections={"sel": "D(sel)"})
+        keys4 = [k for k in rule4.detection.detections if k != "sel"]
+    except Raised as ex:
+        raise AnalysisError(f"filter application raises {ex}")
+    if len(keys4) == 1 and keys4[0].startswith("_filt_") and keys4[0].endswith("_flt"):
+        r.ok("C20.R4", "sigma.filters.SigmaFilter.apply_on_rule", f"random name is built as '_filt_' + letters ({keys4[0]!r} with the stand-in draw)", fa.loc)
+    else:
+        r.violation("C20.R4", "sigma.filters.SigmaFilter.apply_on_rule", f"'_filt_' + random letters: detection keys {keys4}", "the randomly drawn identifier no longer provably starts with '_' (selector exclusion relies on it)")
 
 
 def _in_scope(fi: FuncInfo) -> bool:
@@ -241,6 +309,16 @@ def r1_set_order(ctx) -> None:
             construct = f"{short(e, 70)} in {stmt_head(st, 110)}"
             if kind == "sensitive":
                 acc = ACCEPTED_SENSITIVE.get((q, " ".join(construct.split())))
+                if not acc:
+                    # list(<set>) handed straight to a method of the class that treats the argument as a set
+                    pp = prog.parent(p) if isinstance(p, ast.Call) and call_name(p) in ("list", "tuple") else None
+                    if isinstance(pp, ast.Call) and isinstance(pp.func, ast.Attribute) and unparse(pp.func.value) == "self" and fi.cls is not None and p in pp.args:
+                        callee = prog.lookup_method(fi.cls.qual, pp.func.attr)
+                        if callee is not None:
+                            params = [x for x in callee.params() if x != "self"]
+                            idx = pp.args.index(p)
+                            if idx < len(params):
+                                acc = _param_used_as_set(ctx, callee, params[idx])
                 if acc:
                     r.ok("C20.R1", q, f"{construct} — accepted: {acc}", loc)
                 else:
@@ -255,6 +333,23 @@ def r1_set_order(ctx) -> None:
     r.floor("C20.R1", 15)
 
 
+def _owner_class(prog, fi: FuncInfo) -> Optional[str]:
+    """The class that holds every reference to the module-level function fi (None if referenced elsewhere or nowhere)."""
+    owners = set()
+    for st in fi.module.tree.body:
+        if st is fi.node:
+            continue
+        refs = [n for n in ast.walk(st) if isinstance(n, ast.Name) and n.id == fi.name and isinstance(n.ctx, ast.Load)]
+        if refs:
+            if not isinstance(st, ast.ClassDef):
+                return None
+            owners.add(f"{fi.module.name}.{st.name}")
+    for m in prog.modules.values():
+        if m is not fi.module and any(isinstance(n, ast.ImportFrom) and n.module == fi.module.name and any(a.name == fi.name for a in n.names) for n in ast.walk(m.tree)):
+            return None
+    return owners.pop() if len(owners) == 1 else None
+
+
 def r2_random_sources(ctx) -> None:
     r, prog = ctx.r, ctx.prog
     r.rule("C20.R2", "every nondeterminism source (random, uuid1/4, time, os.urandom, id(), hash(), default object repr) in loading/pipeline/conversion code is in the reviewed table; conversion modules never read detection names, condition strings or identifier nodes")
@@ -266,6 +361,10 @@ def r2_random_sources(ctx) -> None:
             loc = f"{fi.module.relpath}:{c.lineno}"
             if d.startswith(RANDOM_CALLS) or d in RANDOM_CALLS:
                 key = next((k for k in ACCEPTED_RANDOM if (k[0] == q or q.startswith(k[0] + ".")) and d.startswith(k[1])), None)
+                if key is None and fi.cls is None:
+                    # a module-level helper every reference of which lies in one class (e.g. the default factory of a field)
+                    oc = _owner_class(prog, fi)
+                    key = next((k for k in ACCEPTED_RANDOM if oc is not None and k[0] == oc and d.startswith(k[1])), None)
                 if key:
                     r.ok("C20.R2", q, f"{d}(...) — {ACCEPTED_RANDOM[key]}", loc)
                 else:
